@@ -30,6 +30,10 @@ fn main() {
         robust::query::worker(&argv[1], &argv[2]);
         return;
     }
+    if id == "C34-worker" {
+        cyphermon::capi_parity::worker(&argv[1..]);
+        return;
+    }
     if id == "C10-worker" {
         concmon::handles::worker(&argv[1]);
         return;
@@ -50,6 +54,14 @@ fn main() {
             }
             Err(e) => println!("ERR {e}"),
         }
+        return;
+    }
+    if id == "probe-c" {
+        // vmon probe-c "<cypher>": run through the C API (ndb_query, then ndb_execute_write)
+        let dir = common::sut::ScratchDir::new("probec");
+        let db = common::capi::CDb::open(&dir.db_base()).expect("open");
+        println!("query: {:?}", db.query(&argv[1], None));
+        println!("write: {:?}", db.execute_write(&argv[1], None));
         return;
     }
     if id == "probe-limit" {
@@ -93,6 +105,7 @@ fn main() {
         "C22" => cyphermon::errors::main(&args),
         "C23" => cyphermon::laws::main(&args),
         "C33" => cyphermon::limits::main(&args),
+        "C34" => cyphermon::capi_parity::main(&args),
         "C16" => robust::query::main(&args),
         "C25" => robust::codec::main(&args),
         "C26" => structmon::btree::main(&args),
